@@ -93,7 +93,7 @@ def escape_kinds(f: Func, allowed: set[str], str_params: set[str], safe_funcs: s
     return {(s[1], s[2]) for s in out.exc}, n_guarded
 
 
-def r_exc_escape(ck: Checker, entries: list[tuple[str, str, set[str], set[str]]], rule: str = "R-EXC-ESCAPE") -> None:
+def r_exc_escape(ck: Checker, entries: list[tuple[str, str, set[str], set[str]]], rule: str = "R-EXC-ESCAPE", min_guarded: int = 5) -> None:
     safe: set[str] = set()
     total_guarded = 0
     for modname, q, allowed, strp in entries:
@@ -110,8 +110,8 @@ def r_exc_escape(ck: Checker, entries: list[tuple[str, str, set[str], set[str]]]
                 safe.add(q.split(".")[-1])
                 safe.add(q)
                 safe.add("NodeMatcher.from_pattern")
-    if total_guarded < 5:
-        ck.incomplete(rule, None, None, f"only {total_guarded} guarded calls found in the entry points (>= 5 expected)")
+    if total_guarded < min_guarded:
+        ck.incomplete(rule, None, None, f"only {total_guarded} guarded calls found in the entry points (>= {min_guarded} expected)")
 
 
 def _ladder(fn: ast.FunctionDef) -> list[tuple]:
